@@ -2,7 +2,7 @@
    "Oracle" = the runtime's choice of visiting order at a Go map range: any function returning a
    permutation of the entries. Two replicas = two oracles. *)
 From Coq Require Import List NArith ZArith String Bool Permutation Sorted.
-From V.C01 Require Import Inventory Gen Covered Model SortProofs Proofs Block Harness HarnessProofs.
+From V.C01 Require Import Inventory Gen Covered Model SortProofs Proofs Block Harness HarnessProofs Cast.
 Import ListNotations.
 
 (* ---- the defect ---- *)
@@ -132,6 +132,30 @@ Section BlockTheorems.
 End BlockTheorems.
 Print Assumptions C01_block_deterministic.
 Print Assumptions C01_block_list_order_irrelevant.
+
+(* ---- the proposer's clock ---- *)
+(* Situation "casting": before each transaction the proposer reads the node clock and may stop; the list
+   Execute returns is what it publishes. For ANY clock, any BeforeExecute/Execute functions (evicting
+   pre-checks write nothing): a verifier executing the returned list on the same parent state obtains the
+   proposer's state and receipts, packs the same list, evicts nothing. *)
+Theorem C01_cast_then_verify_agree :
+  forall (T S R : Type) (before : T -> S -> S * verdict R) (exec : T -> S -> S * R),
+    (forall t s s', before t s = (s', VEvict R) -> s' = s) ->
+    forall up l i s,
+      let c := cast T S R before exec up i l s in
+      verify T S R before exec (packed T S R c) s = (st T S R c, packed T S R c, [], receipts T S R c).
+Proof. exact cast_then_verify_agree. Qed.
+Print Assumptions C01_cast_then_verify_agree.
+
+(* ... and it is the ORDER of the check that matters: reading the clock after BeforeExecute (which charges
+   the fee outside any snapshot) is refuted. *)
+Theorem C01_cast_check_after_before_execute_refuted :
+  exists (before : unit -> Z -> Z * verdict unit) (exec : unit -> Z -> Z * unit) (up : nat -> bool) l s,
+    (forall t s s', before t s = (s', VEvict unit) -> s' = s) /\
+    let c := cast_late unit Z unit before exec up 0 l s in
+    st unit Z unit (verify unit Z unit before exec (packed unit Z unit c) s) <> st unit Z unit c.
+Proof. exact cast_late_refuted. Qed.
+Print Assumptions C01_cast_check_after_before_execute_refuted.
 
 (* ---- sub-chain reward call data (VMExecutor.generateCode): open finding ---- *)
 Theorem C01_generate_code_refuted :
